@@ -120,6 +120,12 @@ def run(model: RepoModel, rep, tier: str):
                        "already processed (a set that is membership-tested and grown inside the loop), or is one of the loops read and frozen "
                        "with the reason why it is finite", min_instances=8)
     _r5_self_feeding_worklists(model, rep)
+    # ------------------------------------------------------------------ R6 recursive descents over graphs that may be cyclic
+    from ..generic2 import check_mark_before_recursion
+    rep.rule("C13.R6", "recursive descents over graphs that may be cyclic (states reachable through fields and elements, the class graph, "
+                       "definition-use chains) enter the current key into their memo before they call themselves", 5)
+    check_mark_before_recursion(model, rep, "C13.R6", sorted(r for r in model.modules if r.startswith(("core/", "taint/")))
+                                + ["basics/type_hierarchy.py", "common_structs.py"])
 
     # functions something in the pipeline can reach (by-name over-approximation: a function is reachable when a reachable
     # function mentions its name; roots: main.py, event registration, handler tables)
@@ -532,7 +538,32 @@ def _r5_self_feeding_worklists(model: RepoModel, rep):
                              and c.func.attr in ("add", "update")} - {wl}
                     visited = sorted(tested & grown)
                     key = f"{rel}::{f.qualname}::work-list `{wl}` (while loop #{_loop_ordinal(f, L)})"
-                    if visited:
+                    # what is remembered must be what is tested: `if x not in V: V.add(x); wl.append(x)` or `x = wl.pop(); if x in V: continue;
+                    # V.add(x)`.  Adding a different element (the one being expanded instead of the one being queued) leaves the tested
+                    # element unmarked: it is queued once per path that reaches it (exponential on diamond-shaped graphs, endless on rings)
+                    mismatch = None
+                    for V in visited:
+                        t_exprs = {norm(c.left) for c in ast.walk(L) if isinstance(c, ast.Compare) and isinstance(c.ops[0], (ast.In, ast.NotIn)) and norm(c.comparators[0]) == V}
+                        a_exprs = {norm(c.args[0]): c for c in ast.walk(L) if isinstance(c, ast.Call) and isinstance(c.func, ast.Attribute) and c.func.attr == "add"
+                                   and norm(c.func.value) == V and c.args}
+                        # elements queued behind `E not in V`
+                        for i_ in ast.walk(L):
+                            if not isinstance(i_, ast.If):
+                                continue
+                            for c in ast.walk(i_.test):
+                                if isinstance(c, ast.Compare) and isinstance(c.ops[0], ast.NotIn) and norm(c.comparators[0]) == V:
+                                    E = norm(c.left)
+                                    queued = any(isinstance(a_, ast.Call) and a_ in adds and a_.args and norm(a_.args[0]) == E for b_ in i_.body for a_ in ast.walk(b_))
+                                    if queued and a_exprs and E not in a_exprs and not (set(a_exprs) & t_exprs):
+                                        bad_add = next(iter(a_exprs.values()))
+                                        mismatch = (V, bad_add, [E])
+                    if visited and mismatch:
+                        V, c, t_exprs = mismatch
+                        rep.violation("C13.R5", key, rel, c.lineno,
+                                      f"{f.qualname} tests {t_exprs} against `{V}` but remembers `{norm(c.args[0])}` (`{norm(c)}`): the element that is "
+                                      f"tested is never marked, so it is queued again from every predecessor -- once per path on a layered graph of "
+                                      f"diamonds (exponential work), for ever on a ring")
+                    elif visited:
                         rep.holds("C13.R5", key, rel, L.lineno, f"processed elements are remembered in {visited}")
                     elif (rel, f.qualname) in SELF_FEEDING_OK:
                         rep.info("C13.R5", key, rel, L.lineno, "adjudicated: " + SELF_FEEDING_OK[(rel, f.qualname)])
